@@ -426,6 +426,12 @@ example := suppressed_write_noop true 10 (runG true 10 g0 (demoG.take 3)).1 1 ["
 example := allowed_write_is_write true 10 (runG true 10 g0 (demoG.take 6)).1 1 ["v2".toList] (some 1)
   (by decide)
 
+/-- `gate_free_is_indented` applied (hypothesis audit, round 10): two sections, none quiet, the newer one VERBOSE - a
+history without flags is the indented history; the hypothesis fails once a section is quiet (then `quiet_op_noop`) -/
+example := gate_free_is_indented true 10 [.write 1 ["b2".toList], .clear 0]
+  (runG true 10 g0 (demoG.take 6)).1 (by decide)
+example : ¬ ∀ c ∈ (runG true 10 g0 (demoG.take 8)).1.cfg, c.quiet = false := by decide
+
 /-- a section that shows a line is made quiet and cleared: nothing happens (it keeps what it shows); after
 `set_quiet(False)` the next line goes below -/
 private def demoQ : List GOp :=
